@@ -2,6 +2,8 @@
 
 package main
 
+import "bytes"
+
 // extraMain dispatches the subcommands of the sequential-component harnesses.
 func extraMain(cmd string, args []string) bool {
 	if f, ok := extraCmds[cmd]; ok {
@@ -12,3 +14,5 @@ func extraMain(cmd string, args []string) bool {
 }
 
 var extraCmds = map[string]func(args []string){}
+
+func bytesReader(b []byte) *bytes.Reader { return bytes.NewReader(b) }
